@@ -167,7 +167,7 @@ def closed_country(b, rng, m, code, T, opts):
             kw2['labour'] = lab_kw
         if good_kw:
             kw2['output'] = good_kw
-        h['bus2'] = b.sector('FixedMarginBusiness', c, names.get('BUS2', 'BUS2'), **kw2)
+        h['bus2'] = b.sector(rng.choice(['FixedMarginBusiness', 'FixedMarginBusinessSub']), c, names.get('BUS2', 'BUS2'), **kw2)
         share = round(rng.uniform(0.1, 0.5), 2)
         b.add({'op': 'AddSupplier', 'market': h['good'], 'supplier': h['bus2'], 'eqn': '%s*DEM_%s' % (repr(share), GOOD)})
         b.add({'op': 'AddSupplier', 'market': h['good'], 'supplier': h['bus'], 'eqn': None})
@@ -326,6 +326,12 @@ def gen_program(seed, family=None, tight=True, T=None, on_grid=True, with_main=T
                 b.add({'op': 'AddVariable', 'sector': e['hh'], 'name': 'DEM_MON', 'eqn': '%s * F' % repr(round(1 - frac, 2))})
             if S['swarm'].random() < 0.3:
                 b.add({'op': 'AddVariable', 'sector': e['hh'], 'name': 'TaxRate', 'eqn': repr(round(prm.uniform(0.05, 0.45), 2))})
+            if treasury and rng.random() < 0.3 and 'regional_dep' not in info:
+                # a second interest-bearing asset whose market sits in this region while its issuer is the central treasury
+                info['regional_dep'] = b.sector('DepositMarket', c, 'RBD', issuer='TRE')
+                b.add({'op': 'AddVariable', 'sector': e['hh'], 'name': 'DEM_RBD', 'eqn': '0.1 * F'})
+                b.add({'op': 'SetRHS', 'sector': e['hh'], 'name': 'DEM_MON', 'eqn': '%s * F' % repr(round(1 - frac - 0.1, 2))})
+                set_exo(b, prm, info['regional_dep'], 'r', path(prm, T, 0.0, 0.06, digits=3))
             info['economies'].append(e)
             # government demand for this region's goods: DEM_<FullCode of the market>
             vn = 'DEM_%s_GOOD' % rc
@@ -395,6 +401,18 @@ def gen_program(seed, family=None, tight=True, T=None, on_grid=True, with_main=T
                 others = [e2[kk] for e2 in info['economies'] for kk in ('hh', 'gov', 'bus') if e2[kk] not in (src, tgt)]
                 b.add({'op': 'RegisterCashFlow', 'model': m, 'source': src, 'target': rng.choice(others), 'var': vn,
                        'inc_src': rng.random() < 0.7, 'inc_dst': rng.random() < 0.5})
+        if family == 'multi_currency' and rng.random() < 0.3:
+            # a rest-of-world sector living in the external sector's own country (currency NUMERAIRE)
+            row = b.sector('Sector', ext, 'ROW', has_F=True)
+            e1 = info['economies'][rng.randrange(n)]
+            b.add({'op': 'AddVariable', 'sector': row, 'name': 'AID', 'eqn': '0.0'})
+            set_exo(b, prm, row, 'AID', path(prm, T, 0.5, 5.0, digits=2))
+            b.add({'op': 'RegisterCashFlow', 'model': m, 'source': row, 'target': e1[rng.choice(['hh', 'gov'])], 'var': 'AID',
+                   'inc_src': rng.random() < 0.5, 'inc_dst': rng.random() < 0.5})
+            if rng.random() < 0.5:
+                b.add({'op': 'AddVariable', 'sector': e1['gov'], 'name': 'DUES', 'eqn': '0.0'})
+                set_exo(b, prm, e1['gov'], 'DUES', path(prm, T, 0.2, 2.0, digits=2))
+                b.add({'op': 'RegisterCashFlow', 'model': m, 'source': e1['gov'], 'target': row, 'var': 'DUES'})
         if family == 'multi_currency' and ext_pos == 'first' and rng.random() < 0.45:
             # gold bought by a government, booked through the external sector's gold market while the model is
             # still under construction; afterwards one more country joins an existing currency
@@ -422,5 +440,8 @@ def gen_program(seed, family=None, tight=True, T=None, on_grid=True, with_main=T
         raise core.HarnessError('unknown family ' + family)
     knobs_ops(b, S['knobs'], m, T, tight=tight)
     if with_main:
-        b.add({'op': 'main', 'model': m})
+        mo = {'op': 'main', 'model': m}
+        if S['swarm'].random() < 0.12:
+            mo['base_file_name'] = 'out/model_run'       # standard logs switched on (they go to SimFS)
+        b.add(mo)
     return b.ops, info
